@@ -177,3 +177,61 @@ Theorem C13_text_roundtrip_idempotent :
     out = join_docs (map enc ns) /\ rt_stream nonstr dec enc out = Ok out.
 Proof. exact rt_stream_idempotent. Qed.
 Print Assumptions C13_text_roundtrip_idempotent.
+
+(* ---- LocalPackageReadWriter with its options (Fs/PkgWriter.v: rw_opts, rw_tracked, rw_run_o) ----
+   C13_delete_confined at full strength: whatever OmitReaderAnnotations / KeepReaderAnnotations say and whatever
+   path annotations the file CONTENTS carry (the reader stamps over them), every path deleted by any Write of
+   any sequence is the package path followed by the relative path of a file the reader opened; with
+   NoDeleteFiles nothing is deleted at all. *)
+Theorem C13_delete_confined_options :
+  forall o pc files steps ds p,
+    canon_comps pc = true -> Forall (fun pf => rel_canon (fst pf)) files ->
+    In (Ok ds) (rw_run_o o (abs_of pc) files steps) -> In p ds ->
+    o_nodelete o = false /\
+    exists pf cs, In pf files /\ cs <> [] /\ canon_comps cs = true /\ fst pf = join_with sep cs /\ p = abs_of (pc ++ cs)%list.
+Proof. exact rw_deletes_confined_options. Qed.
+Print Assumptions C13_delete_confined_options.
+
+Theorem C13_nodelete_deletes_nothing :
+  forall o pkg files anns ds, o_nodelete o = true -> rw_step_o o pkg files anns = Ok ds -> ds = [].
+Proof. exact rw_nodelete_no_deletes. Qed.
+Print Assumptions C13_nodelete_deletes_nothing.
+
+(* ---- RNode.DeAnchor (Yaml/Anchor.v: documents with anchors, aliases and merge keys) ---- *)
+From KV Require Import Yaml.Anchor Yaml.AnchorProofs.
+
+(* whatever DeAnchor returns has no alias and no anchor … *)
+Theorem C13_deanchor_alias_free :
+  forall n e, deanchor_doc n = Ok e -> alias_free e = true.
+Proof. exact deanchor_doc_alias_free. Qed.
+Print Assumptions C13_deanchor_alias_free.
+
+(* … and is therefore a document of the alias-free node type of Yaml/Node.v *)
+Theorem C13_deanchor_into_node :
+  forall n e, deanchor_doc n = Ok e -> exists x, deanchor n = Ok x.
+Proof. exact deanchor_total_on_ok. Qed.
+Print Assumptions C13_deanchor_into_node.
+
+(* Full law: "the de-anchored output has no alias, no anchor and no merge key".  Refuted by the faithful model
+   (and on the implementation: finding C13/deanchor-chained-merge-key-left): a merge of a mapping that has a
+   merge key itself copies that key as an ordinary entry. *)
+Theorem C13_deanchor_merge_free_refuted :
+  exists e, deanchor_doc chained_merge = Ok e /\ alias_free e = true /\ merge_free e = false.
+Proof. exact chained_merge_keeps_merge_key. Qed.
+Print Assumptions C13_deanchor_merge_free_refuted.
+
+(* "… and equals the expansion": on documents without merge keys, DeAnchor succeeds exactly when the reference
+   expansion (Yaml/Anchor.v: expand — every alias stands for the node that last carried the anchor, anchors
+   dropped, no finite expansion for a node that contains itself) exists, and returns it.  Partial: documents
+   WITH merge keys are tied to the implementation by correspondence only (D_deanchor cases). *)
+Theorem C13_deanchor_equals_expansion_partial :
+  forall n e, merge_free n = true -> (deanchor_doc n = Ok e <-> expand_doc n = Some e).
+Proof. exact deanchor_equals_expansion. Qed.
+Print Assumptions C13_deanchor_equals_expansion_partial.
+
+(* "no alias, no anchor, no merge key" on the domain where it holds: no mapping that can be the source of a
+   merge (anchored, or written in place as merge value / item of a merge list) has a merge key itself *)
+Theorem C13_deanchor_plain_partial :
+  forall n e, flat_merges false n = true -> deanchor_doc n = Ok e -> alias_free e = true /\ merge_free e = true.
+Proof. exact deanchor_merge_free_flat. Qed.
+Print Assumptions C13_deanchor_plain_partial.
